@@ -39,7 +39,9 @@ CONFIG = {'gen': ['SmbCommands'],
                "Spec.Cifs.encodeLists (an array is the concatenation of its elements' encodings) / Spec.Cifs.encodeOptional (short form "
                'for a zero field, long form otherwise); NegotiateResponse (the literal two-byte terminators of its two null-terminated '
                'strings, of which the encoders over the declared field list have no notion) and WriteRequest stay outside '
-               '(commands_outside_proved_fragments) and are covered by the differential run only. Nested types: FILETIME, SMB_TIME, '
+               '(commands_outside_proved_fragments); NegotiateResponse is covered by the differential run only, WriteRequest is proved '
+               'non-conforming for every field value (write_request_word_count_counterexample: every output of its Marshal starts with '
+               'the buffer format byte 0x01 of Data where MS-CIFS has the word count 0x05). Nested types: FILETIME, SMB_TIME, '
                'SMB_DATE, SMB_NMPIPE_STATUS, LOCKING_ANDX_RANGE64, OEM_STRING and the dialect list conform for all values '
                '(std_nested_conforms, dialects_eq_spec), SMB_STRING for formats 1, 2, 4, 5 (smb_string_conforms); SMB_FILE_ATTRIBUTES is '
                'big-endian and SMB_STRING format 0x03 carries a length word (file_attributes_big_endian_counterexample, '
